@@ -66,6 +66,8 @@ structure LinkSim where
   mDelivered : List Bytes := []
   mPartial : Option Bytes := none
   mMsgOpenNonEmpty : Bool := false   -- a non-empty message is being transmitted (for empty-frame check)
+  /-- first close notification delivered to the sender side: (graceful, trace line) -/
+  mCloseRx : Option (Bool × Nat) := none
 
 structure Sim where
   name : String := ""
@@ -91,6 +93,8 @@ structure Sim where
   c01 : Bool := true
   c02 : Bool := true
   c03 : Bool := true
+  c11 : Bool := true
+  callLine : Assoc Nat := []
   out : List String := []
   seenCalls : List String := []
   callData : Assoc Bytes := []
@@ -108,6 +112,7 @@ def Sim.fail (s : Sim) (prop : String) (line : Nat) (what : String) : Sim :=
   match prop with
   | "c01" => { s with c01 := false }
   | "c02" => { s with c02 := false }
+  | "c11" => { s with c11 := false }
   | _ => { s with c03 := false }
 
 def kvGet (ws : List String) (key : String) : Option String :=
@@ -329,6 +334,16 @@ def Sim.onRxCloseFin (s : Sim) (line : Nat) (side : String) (port : Nat) (isFini
     match s.link? name side with
     | none => s
     | some l =>
+      let l := if l.mCloseRx.isNone then { l with mCloseRx := some (!isFinish, line) } else l
+      -- a credit return deferred by a full event queue (`return_fut`) is flushed by the next receive
+      -- call and may therefore be overtaken by the close notification: reorder the model's FIFO
+      let isCred := fun (b : Back) => match b with | .credits _ => true | _ => false
+      let creds := l.st.back.takeWhile isCred
+      let rest := l.st.back.dropWhile isCred
+      let l := match rest with
+        | b :: more => if creds.isEmpty then l else { l with st := { l.st with back := b :: (creds ++ more) } }
+        | [] => l
+      let s := s.setLink name side l
       match l.st.back with
       | b :: _ =>
         let okKind := match b with | .recvClose => !isFinish | .recvFinish => isFinish | _ => false
@@ -399,6 +414,9 @@ def splitParts (t : String) : List String := if t == "none" then [] else t.split
 
 /-- Script operation echoed by the harness -/
 def Sim.onOp (s : Sim) (line : Nat) (ws : List String) : Sim :=
+  let s := match ws with
+    | _ :: k :: _ => { s with callLine := s.callLine.set k line }
+    | _ => s
   match ws with
   | ["send", k, side, name, hx] =>
     match s.link? name side, parseHex hx with
@@ -495,6 +513,17 @@ def Sim.onOp (s : Sim) (line : Nat) (ws : List String) : Sim :=
         | some l' => s.setLink name (other side) { l' with recvCall := none }
         | none => s
       | none => s
+  | ["cancelcalls", side, name, which] =>
+    if which == "rx" then
+      match s.link? name (other side) with
+      | some l =>
+        match l.recvCall with
+        | some (_, kind) =>
+          let st' := if kind == 1 then { l.st with partialMsg := none } else l.st
+          s.setLink name (other side) { l with recvCall := none, st := st', mPartial := if kind == 1 then none else l.mPartial }
+        | none => s
+      | none => s
+    else s
   | [op, k, side, name] =>
     if op == "recvany" || op == "recvchunk" || op == "recv" then
       -- the receiver of port `name` on `side` is the receiving half of link name>other(side)
@@ -503,6 +532,10 @@ def Sim.onOp (s : Sim) (line : Nat) (ws : List String) : Sim :=
         let l := { l with recvCall := some (k, if op == "recvchunk" then 1 else if op == "recv" then 2 else 0) }
         let (l', rs) := l.runRecv []
         ({ (s.setLink name (other side) l') with calls := s.calls.set k (name ++ ">" ++ other side, "recv") }).addPredicted rs
+      | none => s
+    else if op == "isclosed" then
+      match s.link? name side with
+      | some l => ({ s with calls := s.calls.set k (name ++ ">" ++ side, "isclosed") }).addPredicted [(k, s!"isclosed={if l.st.s.closed.isSome then 1 else 0}")]
       | none => s
     else if op == "close" then
       let s := { s with closedPorts := s.closedPorts ++ [name ++ ">" ++ other side] }
@@ -521,7 +554,14 @@ def Sim.onOp (s : Sim) (line : Nat) (ws : List String) : Sim :=
         if role == "recv" then
           -- a pending receive call is dropped: no model state changes (recv_any/recv_chunk are cancel safe)
           match l.recvCall with
-          | some (k', _) => if k' == k then { s with links := s.links.set key { l with recvCall := none } } else s
+          | some (k', kind) =>
+            if k' == k then
+              -- dropping a pending `recv_chunk` abandons the chunked message: the caller leaves its
+              -- chunk loop (outside the documented protocol; the executable model follows, the
+              -- theorems do not cover it)
+              let st' := if kind == 1 then { l.st with partialMsg := none } else l.st
+              { s with links := s.links.set key { l with recvCall := none, st := st', mPartial := if kind == 1 then none else l.mPartial } }
+            else s
           | none => s
         else
           match l.prog with
@@ -558,6 +598,7 @@ def Sim.onRet (s : Sim) (line : Nat) (k : String) (res : List String) : Sim :=
     | none => s
     | some l =>
       -- real-trace predicate bookkeeping
+      let wasPartial := l.mPartial.isSome
       let l := if role == "recv" then l.monRecv res else l
       let l := if (role == "send" || role == "chunks" || role == "trysend") && res == ["ok"] then
           match s.callData.get? k with
@@ -570,6 +611,27 @@ def Sim.onRet (s : Sim) (line : Nat) (k : String) (res : List String) : Sim :=
       let inFlight : List Bytes := (s.calls.filter (fun (ck, (lk, r)) => lk == key && r != "recv" && !s.seenCalls.contains ck)).filterMap (fun (ck, _) => s.callData.get? ck)
       let s := if role == "recv" && !(isPrefix l.mDelivered (l.mCompleted ++ inFlight.take 1)) then
           s.fail "c01" line s!"{key}: delivered {l.mDelivered.map toHex} is not a prefix of the completed sends {l.mCompleted.map toHex}"
+        else s
+      -- c11: end-of-stream only after every completed send was delivered
+      let s := if role == "recv" && res == ["none"] && !wasPartial then
+          if l.mDelivered == l.mCompleted then s
+          else s.fail "c11" line s!"{key}: end-of-stream reported with completed sends {l.mCompleted.map toHex} but delivered {l.mDelivered.map toHex}"
+        else s
+      -- c11: classification of send failures, and no new message after the sender learned of the close
+      let s := if role == "send" || role == "chunks" || role == "trysend" || role == "pconnect" then
+          match res with
+          | ["err", "closed", g] =>
+            match l.mCloseRx with
+            | none => s.fail "c11" line s!"{k} on {key} failed as closed ({g}) but no ReceiveClose/ReceiveFinish was delivered to the sender"
+            | some (graceful, _) =>
+              if (g == "gracefully=1") == graceful then s
+              else s.fail "c11" line s!"{k} on {key} reports {g} but the receiver was {if graceful then "closed (gracefully)" else "dropped"}"
+          | ["ok"] =>
+            match l.mCloseRx, s.callLine.get? k with
+            | some (_, cl), some ol =>
+              if ol > cl && role != "trysend" then s.fail "c11" line s!"{k} on {key} was started after the sender learned that the receiver was closed and still succeeded" else s
+            | _, _ => s
+          | _ => s
         else s
       -- replay: compare with the prediction
       let resText := " ".intercalate res
@@ -675,7 +737,7 @@ def finishTrace (s : Sim) : IO Unit := do
   if s.name != "" then
     for l in s.out do IO.println l
     let b := fun (x : Bool) => if x then "ok" else "FAIL"
-    IO.println s!"END {s.name} events={s.events} replay={if s.replayOk then "ok" else "mismatch"} c01={b s.c01} c02={b s.c02} c03={b s.c03}"
+    IO.println s!"END {s.name} events={s.events} replay={if s.replayOk then "ok" else "mismatch"} c01={b s.c01} c02={b s.c02} c03={b s.c03} c11={b s.c11}"
 
 def stepLine (a : RunAcc) (n : Nat) (line : String) : IO RunAcc := do
   let ws := words line
